@@ -31,16 +31,27 @@ build_o0() {
   rm -f "$LOG.$$"
 }
 
+# feature-off arm for C17: a build failure here is a *finding* (the check reports it)
+build_nopuf() {
+  if cargo build "${CFG[@]}" --target-dir "$TARGET/nopuf" --release --no-default-features --bin c17arm >"$TARGET/nopuf-build.log" 2>&1; then
+    export NFV_NOPUF_BUILD=ok
+  else
+    export NFV_NOPUF_BUILD="fail:$TARGET/nopuf-build.log"
+  fi
+}
+
 case "${1:-}" in
   setup)
     build_release || exit 2
     build_o0 || exit 2
+    build_nopuf
     echo "setup ok"
     ;;
   check)
     ID="$2"; TIER="${3:-${VERIF_TIER:-quick}}"
     build_release || exit 2
     if [ "$ID" = "C01" ]; then build_o0 || exit 2; fi
+    if [ "$ID" = "C17" ]; then build_nopuf; fi
     "$TARGET/release/check" "$ID" --tier "$TIER"
     exit $?
     ;;
